@@ -118,6 +118,22 @@ func runTransfer(t *testing.T, sc Scenario, sum *summary, tf *vh.TraceFile) {
 		w.Mon.Register(srvAddr, cliAddr, 77, rcfg, 0)
 		cli, cconn := w.Dial(cliAddr, srvAddr, 77, sc.Cfg)
 		w.Ev(map[string]any{"ev": "open", "conn": "cli", "stream": sc.Cfg.Stream})
+		// write admission (C04): the hook fires under the session mutex in the branch of WriteBuffers that queues the data
+		var connName sync.Map // *kcp.UDPSession -> "cli" / "srv"
+		connName.Store(cli, "cli")
+		kcp.VerifSetSink(func(ev kcp.VerifEvent) {
+			if ev.Kind != "s.wadmit" {
+				return
+			}
+			name := "other"
+			if s, ok := ev.Ref.(*kcp.UDPSession); ok {
+				if n, ok := connName.Load(s); ok {
+					name = n.(string)
+				}
+			}
+			w.Ev(map[string]any{"ev": "wadmit", "conn": name, "waitsnd": ev.A, "sndwnd": ev.B})
+		})
+		defer kcp.VerifSetSink(nil)
 		var oobMu sync.Mutex
 		oobSent := map[string]map[string]int{"cli": {}, "srv": {}} // payload -> count sent, by sender
 		handler := func(me, from string) kcp.OOBCallBackType {
@@ -156,15 +172,18 @@ func runTransfer(t *testing.T, sc Scenario, sum *summary, tf *vh.TraceFile) {
 				s.SetOOBHandler(handler("srv", "cli"))
 			}
 			srv = s
+			connName.Store(s, "srv")
 			w.Ev(map[string]any{"ev": "accept", "ok": true, "conv": s.GetConv()})
 			close(accepted)
 			// reader: client's stream
 			var off int64
 			buf := make([]byte, 70000)
+			rng := rand.New(rand.NewSource(sc.Seed ^ 0x1111)) // one generator per goroutine
 			for off < int64(sc.Bytes) {
-				n := 1 + rng.Intn(3000)
-				if !sc.Cfg.Stream || rng.Intn(4) == 0 {
-					n = len(buf) // message mode: a buffer that always fits one message
+				// buffers smaller than a message are used in message mode too: the rest of the message stays for the next Read
+				n := []int{1 + rng.Intn(3000), 1 + rng.Intn(200), 1, len(buf)}[rng.Intn(4)]
+				if !sc.Cfg.Stream && rng.Intn(2) == 0 {
+					n = len(buf) // a buffer that always fits one message
 				}
 				if sc.PauseMs > 0 && off > int64(sc.Bytes/3) && phase.Load() == 0 && !pausedOnce.Swap(true) {
 					w.Ev(map[string]any{"ev": "pause", "conn": "srv", "ms": sc.PauseMs})
@@ -199,6 +218,7 @@ func runTransfer(t *testing.T, sc Scenario, sum *summary, tf *vh.TraceFile) {
 				return
 			}
 			var off int64
+			rng := rand.New(rand.NewSource(sc.Seed ^ int64(id)*0x2222)) // one generator per goroutine
 			mtuLeft := sc.MtuEvents
 			oobLeft := sc.OOB
 			for off < int64(total) {
@@ -273,12 +293,10 @@ func runTransfer(t *testing.T, sc Scenario, sum *summary, tf *vh.TraceFile) {
 				defer wg.Done()
 				var off int64
 				buf := make([]byte, 70000)
+				rng := rand.New(rand.NewSource(sc.Seed ^ 0x3333)) // one generator per goroutine
 				for off < int64(sc.BackBytes) {
 					cli.SetReadDeadline(time.Now().Add(ioTimeout))
-					n := len(buf)
-					if sc.Cfg.Stream {
-						n = 1 + rng.Intn(4000)
-					}
+					n := []int{len(buf), 1 + rng.Intn(4000), 1 + rng.Intn(100)}[rng.Intn(3)]
 					k, err := cli.Read(buf[:n])
 					if err != nil {
 						w.Ev(map[string]any{"ev": "readerr", "conn": "cli", "off": off, "timeout": isTimeout(err)})
@@ -299,6 +317,50 @@ func runTransfer(t *testing.T, sc Scenario, sum *summary, tf *vh.TraceFile) {
 				injectGarbage(w, sc, rand.New(rand.NewSource(sc.Seed^0x7777)), func() *kcp.UDPSession { return srv }, cli)
 			}()
 		}
+		// C04 at session level: both ends' queue lengths are sampled every few virtual milliseconds for the whole transfer
+		stopSampler := make(chan struct{})
+		samplerDone := make(chan struct{})
+		go func() {
+			defer close(samplerDone)
+			last := map[string][5]int{}
+			sample := func(name string, s *kcp.UDPSession) {
+				st := s.VerifKCPState()
+				sets := 0
+				if f, ok := s.VerifFECState(); ok {
+					sets = len(f.Sets)
+				}
+				cur := [5]int{len(st.RcvQueue), len(st.RcvBuf), len(st.SndBuf), sets, int(st.RcvWnd)<<16 | int(st.SndWnd)}
+				if last[name] == cur {
+					return // unchanged since the last sample
+				}
+				last[name] = cur
+				w.Ev(map[string]any{"ev": "bounds", "conn": name, "rcvq": len(st.RcvQueue), "rcvb": len(st.RcvBuf), "rcvwnd": int(st.RcvWnd),
+					"sndb": len(st.SndBuf), "sndwnd": int(st.SndWnd), "sets": sets, "pool": 0})
+			}
+			for i := 0; ; i++ {
+				select {
+				case <-stopSampler:
+					return
+				case <-time.After(time.Duration(5+i%21) * time.Millisecond):
+				}
+				sample("cli", cli)
+				select {
+				case <-accepted:
+					if srv != nil {
+						sample("srv", srv)
+					}
+				default:
+				}
+			}
+		}()
+		defer func() {
+			select {
+			case <-stopSampler:
+			default:
+				close(stopSampler)
+			}
+			<-samplerDone
+		}()
 		if sc.CloseMid {
 			time.Sleep(time.Duration(50+rng.Intn(400)) * time.Millisecond)
 		} else {
@@ -310,6 +372,8 @@ func runTransfer(t *testing.T, sc Scenario, sum *summary, tf *vh.TraceFile) {
 		}
 		// final state, then close everything in a seeded order
 		<-accepted
+		close(stopSampler)
+		<-samplerDone
 		done := !sc.CloseMid && gotSrv.Load() == int64(sc.Bytes) && gotCli.Load() == int64(sc.BackBytes)
 		w.FlushWire()
 		ws, wok := w.Mon.Reassemble(cliAddr, srvAddr)
@@ -327,6 +391,9 @@ func runTransfer(t *testing.T, sc Scenario, sum *summary, tf *vh.TraceFile) {
 				w.Ev(map[string]any{"ev": "close", "conn": "cli", "err": err != nil})
 			case 1:
 				if srv != nil {
+					if sc.CloseMid {
+						w.Mon.ForgetMtu(srvAddr, cliAddr) // the listener may replace the closed session with a fresh, unconfigured one
+					}
 					err := srv.Close()
 					w.Ev(map[string]any{"ev": "close", "conn": "srv", "err": err != nil})
 				}
